@@ -53,6 +53,12 @@ func computeConfinement(c *Ctx) *confinement {
 	}
 	sort.Strings(cf.owners)
 	funcs := c.P.FuncsIn("router")
+	type poster struct {
+		fn    *ssa.Function
+		idx   int
+		owner string
+	}
+	var posters []poster
 	// seeds: closures sent on X.actionChan; the run method
 	for _, fn := range funcs {
 		for _, in := range ir.Instrs(fn) {
@@ -85,6 +91,16 @@ func computeConfinement(c *Ctx) *confinement {
 			if mc, ok := val.(*ssa.MakeClosure); ok {
 				cf.conf[mc.Fn.(*ssa.Function)] = o
 			}
+			// posting wrapper: a function that sends its own parameter on the
+			// action channel (router.post); closures passed at its call sites
+			// run on the owner's goroutine
+			if p, ok := val.(*ssa.Parameter); ok {
+				for i, q := range fn.Params {
+					if q == p {
+						posters = append(posters, poster{fn, i, o})
+					}
+				}
+			}
 		}
 		if fn.Name() == "run" && fn.Signature.Recv() != nil {
 			if o := ownerOf(fn.Signature.Recv().Type()); isOwner[o] {
@@ -96,6 +112,17 @@ func computeConfinement(c *Ctx) *confinement {
 			if a, ok := in.(*ssa.Alloc); ok && a.Heap {
 				if o := ownerOf(a.Type()); isOwner[o] && fn.Parent() == nil {
 					cf.ctor[fn] = o
+				}
+			}
+		}
+	}
+	for _, ps := range posters {
+		for _, fn := range funcs {
+			for _, in := range ir.Instrs(fn) {
+				if ci, ok := in.(ssa.CallInstruction); ok && ci.Common().StaticCallee() == ps.fn && ps.idx < len(ci.Common().Args) {
+					if mc, ok := ci.Common().Args[ps.idx].(*ssa.MakeClosure); ok {
+						cf.conf[mc.Fn.(*ssa.Function)] = ps.owner
+					}
 				}
 			}
 		}
@@ -256,6 +283,9 @@ func ruleConfinement(c *Ctx, rule string) {
 		{"realm", "waitHandlers"}: "sync.WaitGroup (self-synchronised)",
 		{"realm", "closeLock"}:    "mutex",
 		{"router", "closeOnce"}:   "sync.Once",
+		{"router", "stopping"}:    "guarded by stopLock (written by Close under the write lock, read by post under the read lock)",
+		{"router", "stopLock"}:    "mutex",
+		{"dealer", "timers"}:      "sync.WaitGroup (self-synchronised)",
 	}
 	exempt := map[string]string{
 		"router.(*realm).close|realm.closeOnStop":           "read after waitHandlers.Wait(): every handler that appended through the realm goroutine has finished",
